@@ -569,7 +569,18 @@ func realStackReopen(res *ShardResult, add func(string, string)) {
 			continue
 		}
 		d.f(dir, segs)
-		_, err1 := wal.Open(dir, wal.WithSegmentSize(128))
+		first := make(chan error, 1)
+		go func() {
+			_, err := wal.Open(dir, wal.WithSegmentSize(128))
+			first <- err
+		}()
+		var err1 error
+		select {
+		case err1 = <-first:
+		case <-time.After(30 * time.Second):
+			add("real-hang|"+d.name, fmt.Sprintf("real fs + bbolt: Open of a directory with [%s] has not returned after 30 s (it must report an error)", d.name))
+			continue // the directory stays: the blocked call still holds it
+		}
 		if err1 == nil {
 			add("real-silent|"+d.name, fmt.Sprintf("real fs + bbolt: Open succeeded on a directory with [%s]", d.name))
 			os.RemoveAll(dir)
